@@ -550,7 +550,7 @@ func genExpiry() *rapid.Generator[Case] {
 // genFlaky draws a flaky-load case (the strategy is assigned by the caller): FAULTY (1-8 entries) answers
 // 5xx to one request in 2-5 and 200 to the others, GOOD answers 200; 8-24 keep-alive clients, in 3 of 4
 // draws all free-running back to back, else half of them in synchronised volleys; passive checks on in
-// 7 of 8 draws with an unhealthy_threshold of 2, 3, 5 or 50 (with a high threshold the flaky backend is
+// 7 of 8 draws with an unhealthy_threshold of 2, 5, 50 or 1000 (with a high threshold the flaky backend is
 // hardly ever ejected: counted failures and successes alternate for the whole burst).
 func genFlaky() *rapid.Generator[Case] {
 	return rapid.Custom(func(rt *rapid.T) Case {
@@ -560,10 +560,12 @@ func genFlaky() *rapid.Generator[Case] {
 				Handler: rapid.IntRange(1, 3).Draw(rt, "handler_timeout"), BackendRead: rapid.IntRange(1, 3).Draw(rt, "backend_read_timeout")},
 			FlakyOneIn: rapid.IntRange(2, 5).Draw(rt, "one_in"),
 			Clients:    rapid.SampledFrom([]int{8, 12, 16, 24}).Draw(rt, "clients"),
-			Seconds:    rapid.IntRange(3, lab.Scale(3, 5)).Draw(rt, "seconds")}
+			Seconds:    rapid.IntRange(lab.Scale(2, 3), lab.Scale(3, 5)).Draw(rt, "seconds")}
 		if rapid.IntRange(0, 7).Draw(rt, "passive") > 0 {
 			c.Cfg.Passive = true
-			c.Cfg.PassiveThreshold = rapid.SampledFrom([]int{2, 3, 5, 50, 50}).Draw(rt, "threshold")
+			// mostly a threshold the burst never (1000) or hardly ever (50) reaches: the flaky backend stays in
+			// rotation with counted failures; with 2 or 5 it is ejected again and again
+			c.Cfg.PassiveThreshold = rapid.SampledFrom([]int{2, 5, 50, 50, 1000, 1000}).Draw(rt, "threshold")
 		} else {
 			c.Cfg.PassiveTimeoutOmitted = rapid.Bool().Draw(rt, "timeout_omitted")
 		}
